@@ -76,7 +76,7 @@ def assert_faithful(ctx):
         else:
             if rule.strategy.decomposition_function(parent) is None:
                 raise Bad("a rule was recorded for %r by %r which does not apply to it" % (parent, rule.strategy))
-            c02.check_genuine(pack, rule, "recorded rule")
+            c02.check_genuine(pack, rule, "recorded rule", [cdb.get_class(l) for l in labs])
         if len(kids) == 1 and kids[0] == parent:
             raise Bad("a rule with the class itself as only child was recorded")
         for ch in kids:
